@@ -142,3 +142,23 @@
 (declare-fun le16 (Int) (Array Int Int))
 ;@ needs le16
 (assert (forall ((v Int) (i Int)) (! (= (select (le16 v) i) (ite (= i 0) (mod v 256) (ite (= i 1) (mod (div v 256) 256) 0))) :pattern ((select (le16 v) i)))))
+; ---- WOTS+ chains (RFC 8391 Algorithm 2): randF = F with key/mask derived from the address (keyAndMask 0, 1) ----
+(declare-fun randF (Int (Array Int Int) (Array Int Int) (Array Int Int)) (Array Int Int))
+;@ needs randF
+;@ defines randF
+(assert (forall ((hf Int) (PS (Array Int Int)) (AD (Array Int Int)) (X (Array Int Int)))
+  (! (= (randF hf PS AD X)
+        (hashArr hf (corein 0 (prfArr hf PS (addrBytes (store AD 7 0))) 32
+                      (xorArr X (prfArr hf PS (addrBytes (store AD 7 1))) 32) 32) 96 32))
+     :pattern ((randF hf PS AD X)))))
+; chain(hf, PS, A, X, s, k): X after k chain steps starting at step index s (hash-address word 6 = s, s+1, ...)
+(declare-fun chain (Int (Array Int Int) (Array Int Int) (Array Int Int) Int Int) (Array Int Int))
+(declare-fun chainS (Int (Array Int Int) (Array Int Int) (Array Int Int) Int Int) (Array Int Int))
+;@ needs chain
+(assert (forall ((hf Int) (PS (Array Int Int)) (A (Array Int Int)) (X (Array Int Int)) (s Int))
+  (! (= (chain hf PS A X s 0) X) :pattern ((chain hf PS A X s 0)))))
+;@ needs chainS
+(assert (forall ((hf Int) (PS (Array Int Int)) (A (Array Int Int)) (X (Array Int Int)) (s Int) (k Int))
+  (! (and (= (chainS hf PS A X s k) (chain hf PS A X s k))
+          (=> (> k 0) (= (chain hf PS A X s k) (randF hf PS (store A 6 (+ s (- k 1))) (chain hf PS A X s (- k 1))))))
+     :pattern ((chainS hf PS A X s k)))))
